@@ -1,13 +1,14 @@
 #!/bin/sh
 # tools/confirm_mutant.sh <worktree> <demo test name>   confirm a sub-agent's claim: demo fails with the change, passes without, suite passes with it
+# (the change is taken from <worktree>/patch.diff and reverted/re-applied with git apply: the stash is shared between worktrees)
 W=$1; T=$2
 cd "$W" || exit 2
 feat=""; grep -q 'feature = "verif"\|features verif\|verif_' tests/$T.rs && feat="--features verif"
-git diff --quiet -- src && { echo "no src change in worktree"; exit 2; }
+git checkout -q -- src && git apply patch.diff || { echo "patch.diff does not apply in the worktree"; exit 2; }
 with=$(cargo test --offline -j 8 $feat --test $T 2>&1 | grep -E "^test result" | tail -1)
-git stash push -q -- src
+git apply -R patch.diff
 without=$(cargo test --offline -j 8 $feat --test $T 2>&1 | grep -E "^test result" | tail -1)
-git stash pop -q
+git apply patch.diff
 suite=$(cargo test --offline -j 8 --lib 2>&1 | grep -E "^test result" | tail -1)
 echo "with change:    $with"
 echo "without change: $without"
